@@ -268,6 +268,7 @@ type builds struct {
 	worker, raceWorker, sites string
 	yi                        *overlay.YieldInfo
 	buildSeconds              float64
+	unsupported               []string
 }
 
 func build(needRace, needOverlay bool) *builds {
@@ -288,8 +289,9 @@ func build(needRace, needOverlay bool) *builds {
 			}
 			b.yi = yi
 			if len(yi.Unsupported) > 0 {
-				errOv = fmt.Errorf("package bebop uses constructs the cooperative scheduler cannot model: %v", yi.Unsupported)
-				return
+				// blocking / atomic synchronisation is not modelled by the cooperative scheduler: the interleaving exploration is
+				// skipped (reported as a cap), the single-threaded passes and the free-running race pass still run
+				b.unsupported = yi.Unsupported
 			}
 			sb, _ := json.Marshal(yi)
 			if err := os.WriteFile(b.sites, sb, 0o644); err != nil {
@@ -470,6 +472,9 @@ func main() {
 		return k
 	}
 	addExplore := func(pass string, ops []string, l bool, bound int, est float64, per float64, max int) {
+		if len(bl.unsupported) > 0 {
+			return
+		}
 		k := shardsFor(est, per, max)
 		for s := 0; s < k; s++ {
 			units = append(units, &unit{Mode: "explore", Schema: small, Ops: ops, LSites: l, Bound: bound, Shard: s, Shards: k,
@@ -555,7 +560,9 @@ func main() {
 		filepath.Join(vlib.RepoDir(), "testdata", "base", "import.bop"),
 		filepath.Join(vlib.RepoDir(), "testdata", "base", "import_b.bop"),
 		filepath.Join(vlib.RepoDir(), "testdata", "base", "jazz.bop")}
-	repOps := alphabet
+	// every generator option differs between at least two operations of the sequence alphabet (state that survives a
+	// call shows only when a LATER call asks for something else)
+	repOps := append(append([]string{}, alphabet...), "Generate-separate-shared-strings", "Generate-combined-allflags", "Generate-combined-unsafe-tags")
 	if thorough {
 		maxLen = 3
 		repOps = allOps[:8]
@@ -768,6 +775,9 @@ func main() {
 	}
 	if len(capped) > 0 {
 		run.Cap("exploration incomplete (time budget reached or pair skipped): " + strings.Join(capped, "; "))
+	}
+	if len(bl.unsupported) > 0 {
+		run.Cap("interleaving exploration skipped, package bebop uses synchronisation the cooperative scheduler does not model: " + strings.Join(bl.unsupported, "; ") + " (map-order, repetition/aliasing and race passes were run)")
 	}
 	run.Coverage["states"] = states
 	run.Coverage["transitions"] = transitions
